@@ -442,6 +442,12 @@ def skip_members():
            ("./.env.txt", _txt("dotslash-env"), False), ("./._fork.txt", _txt("dotslash-fork"), False), ("./sub/.hid.md", _txt("dotslash-sub"), False),
            ("./plain.txt", _txt("dotslash-plain"), True), (".//.double.txt", _txt("dotslash-double"), False), ("a/../.up.txt", _txt("dotdot-hidden"), False),
            ("./deep/in.zip", inner_zip, False), ("..hidden2.txt", _txt("dotdot-name"), False)]
+    # nested-archive spellings with decoration after the extension: whatever decides "supported" and "which extractor" must not see an archive
+    # where the nested-archive rule sees none (trailing dots / blanks, URL decoration, version / backup marks)
+    mem += [("in2.zip.", inner_zip, False), ("backup/nested.ZIP ", inner_zip, False), ("logs.tgz.", inner_tgz, False), ("logs.tar.xz.", inner_txz, False),
+            ("x2.7z ", inner_7z, False), ("y.tgz. .", inner_tgz, False), ("q.zip?download=1", inner_zip, False), ("r.zip#part", inner_zip, False),
+            ("s.zip~", inner_zip, False), ("t.tar.gz;1", inner_tgz, False), ("u.zip\t", inner_zip, False), ("v.zip%20", inner_zip, False),
+            ("w.tar.bz2..", inner_tbz, False), ("z.tar ", inner_tar, False)]
     forbidden = [_m(t) for t in ("fork-report", "dot", "dot-md", "fork-md", "exe", "so", "nested-zip", "nested-tgz", "nested-tbz", "nested-txz", "nested-tar",
                                  "nested-7z", "fork-late", "dotslash-env", "dotslash-fork", "dotslash-sub", "dotslash-double", "dotdot-hidden",
                                  "dotdot-name")]
@@ -507,6 +513,16 @@ def histories():
                 results, problems = sb.run(data, name, h)
                 if problems:
                     return report(label, name, data, h, problems[0])
+        # extraction that fails with neither Bad7zFile nor OSError: more directory levels than os.makedirs can recurse through (the path stays
+        # below PATH_MAX).  It fails before the first result, so one consumer history is all there is.
+        deep = "d/" * (sys.getrecursionlimit() + 100) + "leaf.txt"
+        for label, data in (("7z with a member nested deeper than the interpreter's recursion limit (solid)",
+                             write7z([("a.txt", _txt("a"), ATTR_FILE), (deep, _txt("leaf"), ATTR_FILE)])),
+                            ("7z with a member nested deeper than the interpreter's recursion limit (one folder per file)",
+                             write7z([("a.txt", _txt("a"), ATTR_FILE), (deep, _txt("leaf"), ATTR_FILE), ("z.txt", _txt("z"), ATTR_FILE)], per_file_folders=True))):
+            results, problems = sb.run(data, "t.7z", "exhaust")
+            if problems:
+                return report(label, "t.7z", data, "exhaust", problems[0])
     return None
 
 
@@ -658,4 +674,63 @@ def oversize_7z(limit=1000):
                     return rp
     finally:
         ae._config = old
+    return None
+
+
+
+def rejected_entries_7z(limit=1000):
+    """7z: an entry that is not written (a name the containment check refuses, or any other reason to leave an entry out) still owns its
+    slice of the folder -- the members that follow it in a solid folder must come out with their own bytes, never with the bytes of the
+    entry that was left out (which may be hidden, a fork, unsupported, nested or above the limit)."""
+    from sharepoint2text.parsing.extractors import archive_extractor as ae
+    old = ae._config
+    ae._config = dataclasses.replace(old, max_memory_size=limit)
+    big = _txt("rej-big", 3 * limit // 20)
+    try:
+        with Sandbox() as sb:
+            unsafe = ["../evil.txt", "/abs/evil.txt", "a/../../evil.txt", sb.canary, "..\\evil.txt", "C:\\evil.txt"]
+            for bad_name in unsafe:
+                for tag, content in (("rej-small", _txt("rej-small")), ("rej-big", big)):
+                    for tail in ([("good.txt", _txt("rej-good"), ATTR_FILE)],
+                                 [("sub/good.md", _txt("rej-good"), ATTR_FILE), ("later.txt", _txt("rej-later"), ATTR_FILE)]):
+                        members = [("first.txt", _txt("rej-first"), ATTR_FILE), (bad_name, content, ATTR_FILE)] + tail
+                        for per_file in (False, True):
+                            data = write7z(members, True, per_file_folders=per_file)
+                            results, problems = sb.run(data, "rej.7z")
+                            bad = judge("rejected entry", "rej.7z", results, problems, {"forbidden": [_m("rej-big")]}, [])
+                            own = {"first.txt": "rej-first", bad_name: tag, "good.txt": "rej-good", "sub/good.md": "rej-good", "later.txt": "rej-later"}
+                            for fp, text in results:
+                                mine = own.get(fp.split("!/", 1)[-1])
+                                for other in sorted(set(own.values()) - {mine}):
+                                    if mine is not None and _m(other) in text:
+                                        bad.append(f"the result for {fp!r} carries the bytes of another entry ({_m(other)}): {text[:60]!r}")
+                            if bad:
+                                rp = report(f"7z ({'one folder per file' if per_file else 'solid'}): first.txt, an entry named {bad_name[:40]!r} "
+                                            f"({len(content)} bytes), then {', '.join(n for n, _d, _a in tail)}", "rej.7z", data, "exhaust", bad[0])
+                                rp["inputs"].update(max_memory_size=limit, members=[(n, len(d)) for n, d, _a in members])
+                                return rp
+    finally:
+        ae._config = old
+    return None
+
+
+def nested_alias_members():
+    """Members whose names the router hands to the archive reader although they do not end in one of the nested-archive suffixes
+    (the `.gz` / `.bz2` / `.xz` aliases, names the MIME database maps to tar): probed only for its own obligation (recorded finding)."""
+    inner_tgz = write_tar([("inner.txt", _txt("alias-tgz"), "file")], "w:gz")
+    inner_tbz = write_tar([("inner.txt", _txt("alias-tbz"), "file")], "w:bz2")
+    inner_txz = write_tar([("inner.txt", _txt("alias-txz"), "file")], "w:xz")
+    mem = [("docs/report.txt", _txt("alias-report")), ("data.gz", inner_tgz), ("deep/DATA.GZ", inner_tgz), ("d.bz2", inner_tbz), ("d.xz", inner_txz),
+           ("t.taz", inner_tgz), ("t.tz", inner_tgz)]
+    forbidden = [_m(t) for t in ("alias-tgz", "alias-tbz", "alias-txz")]
+    with Sandbox() as sb:
+        for kind, name, data in (("zip", "k.zip", write_zip([(n, d, "file") for n, d in mem])), ("tar", "k.tar", write_tar([(n, d, "file") for n, d in mem])),
+                                 ("7z", "k.7z", write7z([(n, d, ATTR_FILE) for n, d in mem]))):
+            label = f"{kind}: members named like compressed files that the router maps to the archive reader"
+            results, problems = sb.run(data, name)
+            bad = judge(label, name, results, problems, {"forbidden": forbidden, "must": [_m("alias-report")]}, [])
+            if bad:
+                rp = report(label, name, data, "exhaust", bad[0])
+                rp["inputs"]["members"] = [n for n, _d in mem]
+                return rp
     return None
